@@ -4,15 +4,16 @@ CONSTANTS
   p2 = p2
   p3 = p3
   P = {p1, p2}
-  Prog <- ProgExitQ
+  Prog <- ProgExitLive
   TaskProg <- TaskNone
   NT = 2
   Cap = 2
-  MaxEp = 6
+  MaxEp = 7
   Expire = 3
   Trials = 2
   Fix = {"repin_sole"}
   Mut = {}
-INVARIANTS TypeOK C13 Once Conserved
+  Loop = {p2}
+INVARIANTS TypeOK Once Conserved LostBag
 PROPERTIES Mono EventuallyRun
 CHECK_DEADLOCK FALSE
